@@ -34,6 +34,7 @@ type crashT struct {
 	Transient bool `json:"transient"` // a single failed store write (the process goes on) instead of a crash
 	NoRetry   bool `json:"no_retry"`  // the interrupted operation is not retried (leftovers accumulate)
 	FromEnd   int  `json:"from_end,omitempty"` // pinned cases: crash index = W - FromEnd
+	SameID    bool `json:"same_id,omitempty"`  // uploads: the retry re-uses the bundle ID (preserved ID) with changed source data
 }
 
 type opT struct {
@@ -74,7 +75,8 @@ func drawOps(t *rapid.T) []opT {
 		}
 		if op.Kind != "dellabel" && rapid.IntRange(0, 9).Draw(t, "docrash") < 6 {
 			op.Crash = &crashT{Sel: rapid.IntRange(0, 999).Draw(t, "crashsel"), Land: rapid.Bool().Draw(t, "land"),
-				Transient: rapid.IntRange(0, 3).Draw(t, "transient") == 0, NoRetry: rapid.IntRange(0, 2).Draw(t, "noretry") == 0}
+				Transient: rapid.IntRange(0, 3).Draw(t, "transient") == 0, NoRetry: rapid.IntRange(0, 2).Draw(t, "noretry") == 0,
+				SameID: rapid.IntRange(0, 3).Draw(t, "sameid") == 0}
 		}
 		ops = append(ops, op)
 	}
@@ -495,6 +497,36 @@ func (w *world) step(i int, op opT, enumerate bool) (sigs []string, err error) {
 	// retry the operation (a new process; uploads get a new bundle ID, as the CLI would)
 	w.seq++
 	retryID := hx.KSUID(op.IDSec, uint64(w.seq))
+	if op.Kind == "upload" && op.Crash.SameID {
+		// the retry preserves the bundle ID while the source data changed in between: it is either refused
+		// (the ID is taken / left-overs are in the way) or it publishes exactly the retried content
+		op2 := op
+		op2.Tree = hx.TreeSpec{Leaf: op.Tree.Leaf}
+		for _, f := range op.Tree.Files {
+			f.Content.Seed += 1000
+			if f.Content.Size == 0 {
+				f.Content.Size = 5
+			}
+			op2.Tree.Files = append(op2.Tree.Files, f)
+		}
+		op2.Tree.Files = append(op2.Tree.Files, hx.FileSpec{Path: "added-by-retry", Content: hx.ContentSpec{Leaf: op.Tree.Leaf, Size: 7, Seed: 77}})
+		_, already := w.committed[bundleID]
+		w.seq++
+		v := w.env.Actor(fmt.Sprintf("retry-sameid%d", w.seq))
+		opErr := w.exec(op2, v, nil, bundleID, diamondID)
+		landed := descriptorKeys(w.env.Meta, repo)[bundleID]
+		switch {
+		case already && opErr == nil:
+			return nil, fmt.Errorf("retry with the ID of an already committed bundle %s succeeded", bundleID)
+		case already:
+			// refused: the committed bundle stays as it is (checked by observe)
+		case opErr == nil && !landed:
+			return nil, fmt.Errorf("retry with preserved ID returned success but no descriptor exists")
+		case landed:
+			w.committed[bundleID] = &bundleM{epf: op.EPF, tree: op2.Tree.Tree().Uploadable()}
+		}
+		return sigs, w.observe(fmt.Sprintf("after same-ID retry of op %d (upload, first attempt crashed at write %d/%d land=%v)", i, n, W, op.Crash.Land))
+	}
 	if op.Kind == "diamond" {
 		// a commit that crashed after its descriptor landed leaves the diamond committable: the retry
 		// may succeed (second bundle: C12's subject) or be refused once diamond-done landed
